@@ -330,6 +330,9 @@ func (self Reflect) listMap(v reflect.Value) node.Node {
 		OnNext: func(r node.ListRequest) (node.Node, []val.Value, error) {
 			var item reflect.Value
 			key := r.Key
+			if (r.New || r.Delete) && !isKeyValid(key) {
+				return nil, nil, fmt.Errorf("no key specified for %s, a map can only hold list items by their key", r.Meta.Ident())
+			}
 			if r.New {
 				item = self.create(e, nil)
 				keyVal := reflect.ValueOf(key[0].Value())
